@@ -332,7 +332,7 @@ func c25singleColumn(c *rig.Ctx, box *srvBox, st *c25stats) *scStats {
 			if (i+round)%3 == 1 {
 				scTable(c, x, box.srv, db, f, false, true, r, st, sc)
 			}
-			if c.Violations() > 25 {
+			if c.UnlistedViolations() > 25 {
 				return sc
 			}
 		}
